@@ -17,7 +17,7 @@
   Core Lean only (linked into `fcdrv`).
 -/
 import FcModel.F64
-namespace Fc
+namespace Fc.C02
 
 /-! ### `np.isclose` on finite binary64 values (units) -/
 
@@ -114,4 +114,4 @@ def fuzzyLexSortIdx (as : List Int → List Nat) (close : Int → Int → Bool) 
   (fuzzyLexSortBy (fun k l => sorterOf as k l) close (fun j (it : Nat × List Int) => it.2.getD j 0) ncols
     ((List.range rows.length).zip rows)).map (·.1)
 
-end Fc
+end Fc.C02
